@@ -1,5 +1,5 @@
 // net_shims.hpp - control interface of the libc interposition layer for the Server harnesses (C13/C14, DESIGN.md 2.4).
-// The shims (send, recv, epoll_wait, epoll_ctl, eventfd, clock_gettime) are defined in the harness executable, so calls made by the statically
+// The shims (send, recv, epoll_wait, epoll_ctl, eventfd, clock_gettime, getaddrinfo/freeaddrinfo) are defined in the harness executable, so calls made by the statically
 // linked libnstd objects bind to them; the real functions are reached through dlsym(RTLD_NEXT, ...). Nothing here includes an nstd or STL header.
 #pragma once
 #include <stddef.h>
@@ -60,8 +60,16 @@ uint32_t epollMask(int fd);
 int lastEventFd();                   // fd returned by the most recent eventfd() call (the Poll object's interrupt descriptor)
 int lastEpollFd();
 
+// name resolution: getaddrinfo() (and freeaddrinfo() for the results made here) is interposed as well. Server::connect(host, ...) resolves in a worker thread of the
+// library's thread pool, so the hook is called IN THAT THREAD (it must not touch the harness' single-threaded bookkeeping; it may block - that is how the harness
+// decides when a resolution completes). Return value:
+//   RESOLVE_PASS : hand the call to libc unchanged        0 : success, *addrHostOrder is the IPv4 address        any EAI_* code (< 0) : fail with that code
+// With no hook installed every call is passed through.
+enum { RESOLVE_PASS = 1 };
+extern int (*volatile resolveHook)(const char* node, uint32_t* addrHostOrder);
+
 // counters (relaxed atomics, may be read from any thread)
-long nSend(); long nRecv(); long nWait(); long nClock(); long nCtl();
+long nSend(); long nRecv(); long nWait(); long nClock(); long nCtl(); long nResolve();
 
 // direct access to the real functions for the harness (peer side I/O that must never be scripted)
 long realSend(int fd, const void* buf, size_t len, int flags);
